@@ -9,8 +9,25 @@ From Coq Require Import NArith ZArith Bool List.
 From IE Require Import Lib.Tbl Lib.C05Lib Gen.Codepage Gen.Formats Model.Attr Model.C05Buf Model.C05Bin Model.C05XBin
   Model.C05Idf Model.C05Tundra Model.C05Spec
   Proofs.C05BufProofs Proofs.C05BinProofs Proofs.C05AdfProofs Proofs.C05XBinProofs Proofs.C05IdfProofs Proofs.C05TundraProofs.
+From IE Require Model.C02Loaders Proofs.C02BridgeProofs.
 Import ListNotations.
 Local Open Scope Z_scope.
+
+(* ------------------------------------------------------------------ the loaders after property C02's fix commits *)
+(* `load_xb` / `load_tnd` below are the models of the XBin / Tundra loaders BEFORE C02's fixes (their `Panic 6` results are
+   the crashes C02 removed).  The models of the loaders as they are now, Model/C02Loaders.v `load_xb2` / `load_tnd2`,
+   accept exactly the same files with the same buffer; the only differences are files that made the old code panic (now an
+   error) and compressed XBin files (Err 98 here, decoded there: property C06).  So every statement of this file about
+   "a file the loader accepts" or "the file the writer makes" is a statement about the code as it is. *)
+Theorem tnd_fixed_loader_agrees : forall data s b, C02Loaders.load_tnd2 data s = Ok b <-> load_tnd data s = Ok b.
+Proof. exact C02BridgeProofs.tnd_fixed_agrees. Qed.
+
+Theorem xb_fixed_loader_accepts : forall data s b, load_xb data s = Ok b -> C02Loaders.load_xb2 data s = Ok b.
+Proof. exact C02BridgeProofs.xb_fixed_accepts. Qed.
+
+Theorem xb_fixed_loader_accepted : forall data s b,
+  C02Loaders.load_xb2 data s = Ok b -> load_xb data s = Ok b \/ load_xb data s = Err 98.
+Proof. exact C02BridgeProofs.xb_fixed_accepted. Qed.
 
 (* ------------------------------------------------------------------ BIN *)
 (* every representable picture of every size: saving (data + the SAUCE record a BIN writer appends) and loading gives the
